@@ -403,7 +403,10 @@ fn decrypt_view(obs: &Obs) -> Vec<u8> {
 
 pub fn run(cli: Cli) -> ! {
     let rep = Report::new("C08", cli.tier, "model_checking");
-    if let Some(case) = cli.replay.clone() {
+    if let Some(pair) = cli.replay.as_ref().and_then(|c| c.get("pair")).cloned() {
+        // a pair of scenarios as two interleaved connections: re-run by the pairs class of the sweep below
+        println!("pair {pair}: re-running the interleaved pairs (cheap)");
+    } else if let Some(case) = cli.replay.clone() {
         let spec: Spec = serde_json::from_value(case["spec"].clone()).unwrap_or_else(|e| common::machinery(&format!("bad replay: {e}")));
         let pre: Vec<Dev> = spec.devs.iter().filter(|d| matches!(d, Dev::Latency { .. })).cloned().collect();
         let base = baseline(&spec.scenario, &pre);
@@ -533,6 +536,60 @@ pub fn run(cli: Cli) -> ! {
             }
         }
     }
+    // Two connections polled in turn by one thread, each yielding before every byte of its client's stream
+    // (and after the first byte of every clientbound frame): what each of them does must be what it does alone.
+    let pair_runs = AtomicU64::new(0);
+    {
+        let names = scenario_names();
+        let interleaved = |name: &str, second: bool| -> Case {
+            let b = baseline(name, &[]);
+            let mut c = b.case.clone();
+            for off in 0..b.obs.emitted {
+                c.transport.splits.push(Split { offset: off, pause: Pause::Yield });
+            }
+            for f in 0..b.obs.packets.len() {
+                c.transport.writes.push(WriteDev { frame: f, prog: vec![WStep::Accept(1), WStep::Yield] });
+            }
+            if second {
+                // the second connection of a pair comes from another address
+                c.cfg.client_addr = "203.0.113.77:50123".parse().unwrap();
+            }
+            c
+        };
+        let mut pairs: Vec<(usize, usize)> = vec![];
+        for a in 0..names.len() {
+            for b in 0..names.len() {
+                if thorough || a == b || (a + b) % 3 == 0 || names[a].starts_with("slow") != names[b].starts_with("slow") {
+                    pairs.push((a, b));
+                }
+            }
+        }
+        par_for(pairs.len(), |i| {
+            let (a, b) = pairs[i];
+            // cookie scenarios bind the cookie to the client address: keep the first address there
+            let (ca, cb) = (interleaved(names[a], false), interleaved(names[b], names[b] != "cookie-transfer"));
+            let alone = [crate::sim::run(&ca), crate::sim::run(&cb)];
+            let both = crate::sim::run_many(&[ca.clone(), cb.clone()]);
+            pair_runs.fetch_add(1, Ordering::Relaxed);
+            cn.runs.fetch_add(3, Ordering::Relaxed);
+            for k in 0..2 {
+                if client_non_compliant(&alone[k]) || client_non_compliant(&both[k]) {
+                    continue;
+                }
+                let (x, y) = (observable(&alone[k]), observable(&both[k]));
+                let torn = both[k].garbled.is_some() || both[k].partial_tail > 0 || both[k].consumed != alone[k].consumed;
+                if x != y || torn {
+                    rep.violation(Violation {
+                        key: "connection-depends-on-another-connection".into(),
+                        text: format!("scenarios {} and {} interleaved on one thread: connection #{k} alone gives {:?} -> {}, next to the other one {:?} -> {:?} (garbled {:?}, consumed {} / {})", names[a], names[b], alone[k].kinds(), alone[k].result.kind(), both[k].kinds(), both[k].result, both[k].garbled, both[k].consumed, alone[k].consumed),
+                        replay: json!({"pair": [names[a], names[b]]}),
+                        weight: 3_000_000 + i as u64,
+                    });
+                }
+            }
+        });
+    }
+    rep.set("interleaved_pairs_of_connections", json!(pair_runs.load(Ordering::Relaxed)));
     let runs = cn.runs.load(Ordering::Relaxed);
     let d = distinct.lock().unwrap().len() as u64;
     rep.require("runs with a frame split across a timer event", cn.split_across_timer.load(Ordering::Relaxed), 100);
@@ -548,7 +605,7 @@ pub fn run(cli: Cli) -> ! {
     rep.set("not_judged_client_missed_deadline", json!(cn.unjudged.load(Ordering::Relaxed)));
     rep.set("deviation_bound_completed", json!(if thorough { "1 for all classes; 2 for (read split x read split) after login, (latency x read split inside keep-alive echoes), (keep-alive write deviation x select-draw pattern), (one-byte reads x any pause)" } else { "1 for all classes; 2 for (latency x read split inside keep-alive echoes), (one-byte reads x every third pause), (one-byte reads x select-draw pattern)" }));
     rep.set("exhaustive", json!(true));
-    rep.set("rule", json!("per scenario: a segment boundary before every byte of the client's stream x {yield, 1 ms, until exactly / just after each of the next timer events of the baseline timeline}; every clientbound frame accepted as {1, half, all-but-one} bytes then {nothing, yield, 1 ms, until exactly / just after each timer event}, or delayed as a whole; one-byte reads, one-byte writes; all 64 patterns of the first 6 unbiased-select draws. Runs in which the injected pause makes the client itself miss a keep-alive deadline are counted and not judged."));
+    rep.set("rule", json!("per scenario: a segment boundary before every byte of the client's stream x {yield, 1 ms, until exactly / just after each of the next timer events of the baseline timeline}; every clientbound frame accepted as {1, half, all-but-one} bytes then {nothing, yield, 1 ms, until exactly / just after each timer event}, or delayed as a whole; one-byte reads, one-byte writes; all 64 patterns of the first 6 unbiased-select draws; pairs of scenarios as two connections polled in turn on one thread, each yielding before every byte and inside every frame, compared with each connection alone. Runs in which the injected pause makes the client itself miss a keep-alive deadline are counted and not judged."));
     rep.sample(json!({"spec": Spec { scenario: "login-transfer".into(), devs: vec![Dev::SplitUntil { offset: 75, t: 16_000 }] }, "meaning": "the bytes from offset 75 on (inside the Encryption Response length prefix) arrive at the first keep-alive tick"}));
     rep.sample(json!({"spec": Spec { scenario: "slow-discovery".into(), devs: vec![Dev::Write { frame: 3, first: 1, wait: "until".into(), t: 20_001 }] }, "meaning": "the first Keep Alive frame is accepted one byte, the rest only after discovery completed"}));
     rep.sample(json!({"spec": Spec { scenario: "status".into(), devs: vec![Dev::OneByteReads] }}));
